@@ -17,9 +17,11 @@ enum Place {
     OuterV0,
     OuterEvolved,
     InVec,
+    /// the record is the body of a struct variant of an enum (evolution on enum variants)
+    StructVariant,
 }
 
-const PLACES: [Place; 4] = [Place::Top, Place::OuterV0, Place::OuterEvolved, Place::InVec];
+const PLACES: [Place; 5] = [Place::Top, Place::OuterV0, Place::OuterEvolved, Place::InVec, Place::StructVariant];
 
 fn fld(name: &str, ty: Ty) -> FieldDescr {
     FieldDescr { name: name.into(), is_option: matches!(ty, Ty::Opt(_)), ty, transient: None, default: None }
@@ -43,6 +45,16 @@ fn place_ty(p: Place, inner: Ty) -> Ty {
             }))
         }
         Place::InVec => Ty::Tuple(vec![Ty::Seq(SeqKind::Vec, Box::new(inner)), Ty::U16]),
+        Place::StructVariant => {
+            let rd = match &inner {
+                Ty::Record(rd) => (**rd).clone(),
+                o => panic!("variant body must be a record: {o:?}"),
+            };
+            let unit = VariantDescr { name: "U".into(), transient: false, shape: 0, record: RecordDescr { name: "U".into(), steps: vec![], fields: vec![] } };
+            let body = VariantDescr { name: "V".into(), transient: false, shape: 2, record: rd };
+            // followed by a sentinel, so that a variant body that consumes too much or too little is seen
+            Ty::Tuple(vec![Ty::Enum(Arc::new(EnumDescr { name: "HE".into(), sorted: false, variants: vec![unit, body] })), Ty::U16])
+        }
     }
 }
 
@@ -52,6 +64,7 @@ fn place_val(p: Place, inner: &[Val]) -> Val {
         Place::OuterV0 => Val::Rec(vec![Val::U(0xaa), inner[0].clone(), Val::U(0xbbcc)]),
         Place::OuterEvolved => Val::Rec(vec![Val::U(0xaa), inner[0].clone(), Val::s("Q"), Val::U(0xbbcc)]),
         Place::InVec => Val::Tuple(vec![Val::Seq(inner.to_vec()), Val::U(0xbbcc)]),
+        Place::StructVariant => Val::Tuple(vec![Val::Enum(1, inner[0].items().to_vec()), Val::U(0xbbcc)]),
     }
 }
 
@@ -429,7 +442,7 @@ fn explore(prop: &str, run: &mut Run, u: &U) {
     }
     run.stats.add("derived_maximal_histories", (citems.len() / ((cdepth + 1) * (cdepth + 1)).max(1)) as u64);
     run.stats.add("dynamic_maximal_histories", dh.len() as u64);
-    run.extra.insert("history_bounds".into(), json!({"derived_depth": cdepth, "dynamic_depth": ddepth, "placements": ["Top", "OuterV0", "OuterEvolved", "InVec"], "writer_reader_pairs": "all (w, r) in 0..=depth"}));
+    run.extra.insert("history_bounds".into(), json!({"derived_depth": cdepth, "dynamic_depth": ddepth, "placements": ["Top", "OuterV0", "OuterEvolved", "InVec", "StructVariant"], "writer_reader_pairs": "all (w, r) in 0..=depth"}));
 }
 
 pub fn extra_for(prop: &str, run: &mut Run, u: &U) -> i32 {
@@ -441,7 +454,7 @@ pub fn run(tier: &str, only: Option<String>) -> i32 {
     let mut run = Run::new("C03", tier, "model_checking", only);
     let u = common::load();
     explore("C03", &mut run, &u);
-    run.rule = "every maximal legal evolution history up to the depth bound x every (writer, reader) version pair x every value of the writer version x four placements; outcome compared with the semantic oracle expected(H,w,r,v) and with the model's byte-level reader; non-trivial = writer and reader versions differ".into();
+    run.rule = "every maximal legal evolution history up to the depth bound x every (writer, reader) version pair x every value of the writer version x five placements (top level, v0 outer record, evolved outer record, Vec, struct variant of an enum); outcome compared with the semantic oracle expected(H,w,r,v) and with the model's byte-level reader; non-trivial = writer and reader versions differ".into();
     run.assumptions = vec![
         "legal histories only (DESIGN 5); embedded + stored-version-0 + removal excluded (DESIGN 9), executed for totality".into(),
         "the dynamic driver calls the real AdtSerializer/AdtDeserializer as the macro expansion does; shown equal to the derived impls on the compiled histories".into(),
